@@ -320,7 +320,7 @@ class Interpreter:
         self.globals = globals
         self.continuing = continuing
         stop_table_name = parent_application.stopping_tablename
-        if stop_table_name and stop_table_name not in parse_result.tables:
+        if stop_table_name is not None and stop_table_name not in parse_result.tables:
             raise DataGenNameError(
                 f"No template creating {stop_table_name}",
             )
